@@ -24,4 +24,62 @@ with contextlib.redirect_stdout(io.StringIO()):
 for name, c in ctxs.items():
     if c.minimum_version < ssl.TLSVersion.TLSv1_2:
         done(confirmed=True, input=dict(constructor=name), observed=dict(minimum_version=str(c.minimum_version)), clause="every context nauyaca builds refuses protocol versions below TLS 1.2")
+
+
+# start_server in every TLS configuration: what is handed to loop.create_server must be TLS
+def start_server_configs():
+    import asyncio
+    from OpenSSL import SSL as OSSL
+    from nauyaca.server.config import ServerConfig
+    from nauyaca.server.middleware import CertificateAuthConfig, CertificateAuthPathRule
+    from nauyaca.server.tls_protocol import TLSServerProtocol
+    root = os.path.join(d, "root")
+    os.makedirs(root, exist_ok=True)
+
+    class Stop(Exception):
+        pass
+
+    async def one(given, flag, rules):
+        seen = {}
+        loop = asyncio.get_running_loop()
+
+        async def create_server(factory, host=None, port=None, ssl=None, **kw):
+            seen.update(factory=factory, ssl=ssl)
+            raise Stop()
+        loop.create_server = create_server
+        cfg = ServerConfig(host="localhost", port=1965, document_root=root, certfile=os.path.join(d, "c.pem") if given else None, keyfile=os.path.join(d, "k.pem") if given else None,
+                           require_client_cert=flag)
+        ca = CertificateAuthConfig(path_rules=[CertificateAuthPathRule(prefix="/admin/", require_cert=True)]) if rules else None
+        try:
+            with contextlib.redirect_stdout(io.StringIO()):
+                await srv.start_server(cfg, certificate_auth_config=ca, enable_rate_limiting=False)
+        except Stop:
+            pass
+        return seen
+    for given in (True, False):
+        for flag in (False, True):
+            for rules in (False, True):
+                seen = asyncio.run(one(given, flag, rules))
+                inp = dict(certificate_files="given" if given else "auto-generated", require_client_cert=flag, certificate_auth_rules=rules)
+                if not seen:
+                    return dict(confirmed=True, input=inp, observed="start_server never created a listener", clause="the server listens, with TLS")
+                ctx = seen["ssl"]
+                if ctx is not None:
+                    if ctx.minimum_version < ssl.TLSVersion.TLSv1_2:
+                        return dict(confirmed=True, input=inp, observed=dict(minimum_version=str(ctx.minimum_version)), clause="no listener below TLS 1.2")
+                    continue
+                proto = seen["factory"]()
+                if not isinstance(proto, TLSServerProtocol) or not isinstance(getattr(proto, "ssl_context", None), OSSL.Context):
+                    return dict(confirmed=True, input=inp, observed=dict(listener_ssl=None, protocol=type(proto).__name__, tls_context=repr(getattr(proto, "ssl_context", None))),
+                                clause="every listener start_server creates speaks TLS: either ssl= is a context or the protocol is the PyOpenSSL wrapper with a context; this one accepts plaintext Gemini requests")
+    return None
+
+
+try:
+    r0 = start_server_configs()
+except Exception as e:  # noqa: BLE001
+    r0 = None
+    sys.stderr.write(f"start_server bank skipped: {type(e).__name__}: {e}\n")
+if r0:
+    done(**r0)
 done(**tls_bank.bank("C20"))
